@@ -302,7 +302,9 @@ def gen_goal(rng, d, matrix=False):
         if r < 0.4:
             return rng.choice([-1.0, 0.0, 0.5, -0.5, 0.25])
         return dyadic(rng, -1, 15. / 16, 16)
-    if r < 0.35:
+    if r < 0.06:
+        g = -INF
+    elif r < 0.35:
         g = rng.choice(special_Rs(d))
     elif r < 0.5:
         g = dyadic(rng, 1 + 1. / 8, 6, 8)
